@@ -3,6 +3,7 @@ package expr
 import (
 	"errors"
 	"fmt"
+	"math"
 	"strings"
 
 	dtpb "github.com/google/fhir/go/proto/google/fhir/proto/r4/core/datatypes_go_proto"
@@ -799,6 +800,9 @@ func (e *NegationExpression) Evaluate(ctx *Context, input system.Collection) (sy
 	// handle negation of value
 	switch v := primitive.(type) {
 	case system.Integer:
+		if v == math.MinInt32 {
+			return system.Collection{}, nil // -MinInt32 overflows, and overflow results in empty
+		}
 		return system.Collection{system.Integer(-1) * v}, nil
 	case system.Decimal:
 		negative := system.Decimal(decimal.NewFromInt(-1))
